@@ -495,6 +495,63 @@ def flatten_new_bases(port, ref):
                             x.src_file = getattr(m, 'src_file', None)
                         cls.body.append(twin)
                         copied.append('{}.{}'.format(b.name, m.name))
+            # the subclass constructor's call of a new base constructor: replaced by that constructor's body
+            def super_call(st):
+                if not (isinstance(st, ast.Expr) and isinstance(st.value, ast.Call)):
+                    return None
+                c_ = st.value
+                if isinstance(c_.func, ast.Name) and c_.func.id == 'super':
+                    return c_.args                                   # JS: super(a, b)
+                if isinstance(c_.func, ast.Attribute) and c_.func.attr == '__init__':
+                    v_ = c_.func.value
+                    if isinstance(v_, ast.Call) and isinstance(v_.func, ast.Name) and v_.func.id == 'super':
+                        return c_.args                               # super().__init__(a, b) / super(C, self).__init__(a, b)
+                    if isinstance(v_, ast.Name) and v_.id in new and c_.args and isinstance(c_.args[0], ast.Name) and c_.args[0].id == 'self':
+                        return c_.args[1:]                           # Base.__init__(self, a, b)
+                return None
+            init = next((m for m in cls.body if isinstance(m, ast.FunctionDef) and m.name == '__init__'), None)
+            base_inits = [next((m for m in b.body if isinstance(m, ast.FunctionDef) and m.name == '__init__'), None) for b in bases]
+            base_inits = [b for b in base_inits if b is not None]
+            for _ in range(3):
+                if init is None or not base_inits:
+                    break
+                new_body, hit = [], False
+                for st in init.body:
+                    args_ = super_call(st)
+                    if args_ is None or hit:
+                        new_body.append(st)
+                        continue
+                    bi = base_inits[0]
+                    prm = [a.arg for a in bi.args.args][1:]
+                    env_ = {p_: a_ for p_, a_ in zip(prm, args_)}
+                    for p_, d_ in zip(prm[len(prm) - len(bi.args.defaults):], bi.args.defaults):
+                        env_.setdefault(p_, d_)
+                    new_body.extend(_subst(x, env_) for x in bi.body)
+                    hit = True
+                    copied.append('{}.__init__ (through super)'.format(bases[0].name))
+                if not hit:
+                    break
+                init.body = new_body
+                base_inits = base_inits[1:]
+                for x in ast.walk(init):
+                    if not hasattr(x, 'lineno'):
+                        x.lineno, x.col_offset, x.end_lineno, x.end_col_offset = init.lineno, 0, init.lineno, 0
+                    if not hasattr(x, 'src_file'):
+                        x.src_file = getattr(init, 'src_file', None)
+            # function-valued attributes set once in the constructor (`self.fold = Math.min`) resolve like class-level ones
+            if init is not None:
+                sets = {}
+                for n_ in ast.walk(cls):
+                    if isinstance(n_, ast.Assign) and len(n_.targets) == 1 and isinstance(n_.targets[0], ast.Attribute) and isinstance(n_.targets[0].value, ast.Name) and n_.targets[0].value.id == 'self':
+                        sets.setdefault(n_.targets[0].attr, []).append(n_)
+                iparams = {a.arg for a in init.args.args}
+                for attr_, ns in sets.items():
+                    if len(ns) == 1 and any(ns[0] is x for x in ast.walk(init)) and isinstance(ns[0].value, (ast.Name, ast.Attribute)) and attr_ not in attrs:
+                        root = ns[0].value
+                        while isinstance(root, ast.Attribute):
+                            root = root.value
+                        if isinstance(root, ast.Name) and root.id not in iparams and root.id != 'self' and any(isinstance(c_, ast.Call) and isinstance(c_.func, ast.Attribute) and c_.func.attr == attr_ and isinstance(c_.func.value, ast.Name) and c_.func.value.id == 'self' for c_ in ast.walk(cls)):
+                            attrs[attr_] = ns[0].value
             if attrs:
                 class R(ast.NodeTransformer):
                     def visit_Attribute(self, node):
